@@ -65,6 +65,7 @@ pub fn read_tlc_lines_sharded(path: &str, tag: &str, shard: (u64, u64)) -> (usiz
     });
     let prefix = format!("<<\"{tag}\", ");
     let mut n = 0usize;
+    let mut kept_bytes = 0usize;
     let mut out = vec![];
     for line in std::io::BufReader::with_capacity(1 << 20, f).lines() {
         let Ok(line) = line else { continue };
@@ -72,6 +73,12 @@ pub fn read_tlc_lines_sharded(path: &str, tag: &str, shard: (u64, u64)) -> (usiz
             continue;
         }
         if (n as u64) % shard.1 == shard.0 {
+            // safety net: 16 shards share 62 GB without swap; parsed JSON takes several times the text
+            kept_bytes += line.len();
+            if kept_bytes > (600 << 20) {
+                eprintln!("input {path} is too large to be held in memory by one shard (> 600 MB of text per shard): use a smaller configuration or the streaming reader");
+                std::process::exit(2);
+            }
             if let Some(v) = parse_tlc_line(&line, tag) {
                 out.push(v);
             }
@@ -79,6 +86,33 @@ pub fn read_tlc_lines_sharded(path: &str, tag: &str, shard: (u64, u64)) -> (usiz
         n += 1;
     }
     (n, out)
+}
+
+/// Streaming variant for inputs of millions of lines: every tagged line of the shard is parsed, handed to `f`
+/// and dropped again.  Returns the total number of tagged lines.
+pub fn stream_tlc_lines_sharded(path: &str, tag: &str, shard: (u64, u64), mut f: impl FnMut(usize, Value)) -> usize {
+    use std::io::BufRead;
+    let file = std::fs::File::open(path).unwrap_or_else(|e| {
+        eprintln!("cannot read {path}: {e}");
+        std::process::exit(2)
+    });
+    let prefix = format!("<<\"{tag}\", ");
+    let mut n = 0usize;
+    let mut k = 0usize;
+    for line in std::io::BufReader::with_capacity(1 << 20, file).lines() {
+        let Ok(line) = line else { continue };
+        if !line.starts_with(&prefix) {
+            continue;
+        }
+        if (n as u64) % shard.1 == shard.0 {
+            if let Some(v) = parse_tlc_line(&line, tag) {
+                f(k, v);
+                k += 1;
+            }
+        }
+        n += 1;
+    }
+    n
 }
 
 pub fn read_tlc_lines(path: &str, tag: &str) -> Vec<Value> {
